@@ -978,13 +978,29 @@ def build_fn(ctx, unit, fs):
                    params=fs.opts["sparams"].replace("~", " "), ret=fs.opts.get("sret", "()").replace("~", " "))
         tail_cut = (toks[bl].end, s_)
         tail_cut2 = None
-        if fs.opts.get("slice_end"):
+        if fs.opts.get("slice_end") == "@block":
+            # MIDDLE: the slice ends where the innermost block that contains its first statement ends
+            a_tok = 0
+            while toks[a_tok].start < s_:
+                a_tok += 1
+            best = None
+            for j_ in range(bl, a_tok):
+                if toks[j_].text == "{" and sf.pair[j_] > a_tok:
+                    best = j_
+            if best is None or best == bl:
+                tail_cut2 = None
+            else:
+                tail_cut2 = (toks[sf.pair[best]].start, toks[bh].start)
+        elif fs.opts.get("slice_end"):
             # MIDDLE: the slice ends before a second anchor instead of at the end of the body
             e_s, _e2 = find_anchor(sf, s_, toks[bh].start, fs.opts["slice_end"].replace("~", " "), 1, fs.path)
             tail_cut2 = (e_s, toks[bh].start)
         fn_label = fs.opts.get("as") or f"{it.name}__tail"
         it = fake
         it.name = fn_label
+        # anchors of rewrites and proof hints of a slice are searched inside the slice only
+        it.slice_lo = tail_cut[1]
+        it.slice_hi = tail_cut2[0] if tail_cut2 else toks[bh].start
         parent_impl = (fs.opts.get("impl_as", parent_impl) or "").replace("~", " ") or None
     has_body = it.body_open is not None
     sig_end_tok = it.body_open if has_body else it.tok_hi - 1   # `{` or `;`
@@ -997,6 +1013,22 @@ def build_fn(ctx, unit, fs):
             if 1 <= ordn_ <= len(pre_loops) and pre_loops[ordn_ - 1][4] == "for_each" and ls_.get("iter"):
                 ctx.foreach_iter[pre_loops[ordn_ - 1][0]] = ls_["iter"]
     edits = common_rewrites(ctx, sf, it.tok_lo, it.tok_hi, "fn", fs.opts)
+    if tail_cut and fs.opts.get("outer_jumps"):
+        # a `continue` / `break` of the slice that belongs to a loop AROUND the slice ends the slice: it becomes `return <value>`
+        # (outer_jumps=Ok(())). What this drops: whether the outer loop continues or stops afterwards.
+        lo_o, hi_o = tail_cut[1], (tail_cut2[0] if tail_cut2 else toks[it.body_close].start)
+        spans = []
+        for l_ in find_loops(sf, it.body_open, it.body_close):
+            if lo_o <= toks[l_[0]].start < hi_o and l_[4] != "for_each":
+                j_ = l_[0] + 1
+                while toks[j_].text != "{":
+                    j_ = pair[j_] + 1 if toks[j_].text in ("(", "[") else j_ + 1
+                spans.append((j_, pair[j_]))
+        for t_ in range(it.body_open, it.body_close):
+            if toks[t_].kind == "id" and toks[t_].text in ("continue", "break") and lo_o <= toks[t_].start < hi_o \
+                    and not any(a_ < t_ < b_ for a_, b_ in spans):
+                edits.append(Edit(toks[t_].start, toks[t_].end, "return " + fs.opts["outer_jumps"].replace("~", " ")))
+                ctx.fire("TAIL-jump", sf, toks[t_].start, f"{toks[t_].text} of an enclosing loop -> return")
     if tail_cut:
         edits = [e_ for e_ in edits if e_.start >= tail_cut[1] and (not tail_cut2 or e_.end <= tail_cut2[0])]
         edits.append(Edit(tail_cut[0], tail_cut[1], "\n"))
@@ -1165,7 +1197,7 @@ def build_fn(ctx, unit, fs):
         for where, arg, nth, text, popts in fs.proofs:
             if where in ("before", "after"):
                 try:
-                    find_anchor(sf, toks[it.body_open].end, toks[it.body_close].start, arg, nth, fs.path)
+                    find_anchor(sf, getattr(it, 'slice_lo', toks[it.body_open].end), getattr(it, 'slice_hi', toks[it.body_close].start), arg, nth, fs.path)
                 except LostAnchor as ex:
                     ctx.dropped_hints.append((fn_label, str(ex)))
                     proofs_to_use = []
@@ -1178,7 +1210,7 @@ def build_fn(ctx, unit, fs):
                 body = text if raw else "proof {\n" + text + "\n}"
                 while True:
                     try:
-                        s, e = find_anchor(sf, toks[it.body_open].end, toks[it.body_close].start, arg, n_, fs.path)
+                        s, e = find_anchor(sf, getattr(it, 'slice_lo', toks[it.body_open].end), getattr(it, 'slice_hi', toks[it.body_close].start), arg, n_, fs.path)
                     except LostAnchor:
                         if n_ == 1:
                             raise
@@ -1188,7 +1220,7 @@ def build_fn(ctx, unit, fs):
                 continue
             if where in ("before", "after"):
                 try:
-                    s, e = find_anchor(sf, toks[it.body_open].end, toks[it.body_close].start, arg, nth, fs.path)
+                    s, e = find_anchor(sf, getattr(it, 'slice_lo', toks[it.body_open].end), getattr(it, 'slice_hi', toks[it.body_close].start), arg, nth, fs.path)
                 except LostAnchor as ex:
                     # a proof hint lost its anchor: drop the hint and let the verifier try without it; failures in this
                     # function are then reported as undecided, never as violations
@@ -1303,6 +1335,8 @@ def site_rewrite(ctx, sf, it, rule, anchor, nth, ropts, what):
     toks, pair = sf.toks, sf.pair
     lo = toks[it.body_open].end if it.body_open is not None else it.start
     hi = toks[it.body_close].start if it.body_close is not None else it.end
+    lo = getattr(it, "slice_lo", lo)
+    hi = getattr(it, "slice_hi", hi)
     try:
         s, e = find_anchor(sf, lo, hi, anchor, nth, what)
     except LostAnchor:
@@ -1546,6 +1580,10 @@ def build_item(ctx, unit, spec):
     sf = ctx.sf(file_rel)
     it = sf.find(elems)
     if it is None:
+        if spec.opts.get("optional"):
+            # a constant that only (newer) code refers to: if the tree does not have it, the code that would use it is not there either
+            ctx.fire("ITEM-skipped", sf, 0, f"optional item {spec.path} absent")
+            return None
         raise LostAnchor(f"item {spec.path} not found")
     toks = sf.toks
     edits = common_rewrites(ctx, sf, it.tok_lo, it.tok_hi, it.kind, spec.opts)
@@ -1747,7 +1785,10 @@ def assemble(repo, unit_path, extra_header="", extra_items=None):
             segs.append(Seg("\n", ("raw", "sep")))
         elif ent[0] == "item":
             close_impl()
-            s, info = build_item(ctx, unit, ent[1])
+            bi_ = build_item(ctx, unit, ent[1])
+            if bi_ is None:
+                continue
+            s, info = bi_
             gen.items.append(info)
             segs.append(Seg("\n", ("raw", "sep")))
             segs += s
